@@ -122,7 +122,7 @@ macro_rules! step_with {
     };
 }
 
-//@ tier: thorough
+//@ tier: attempt
 //@ timeout: 2400
 //@ inst: T = u8 context, U = u8 items from Src, V = u8; right-hand side yields 0..=2 outputs per item
 //@ funcs: box_iter::flat_map_with, box_iter::next_if_one
@@ -167,7 +167,7 @@ macro_rules! step_then {
     };
 }
 
-//@ tier: thorough
+//@ tier: attempt
 //@ timeout: 2400
 //@ inst: T = u8, U = u8, E = u8; source items are Ok(y) or Err(y) by their top bit
 //@ funcs: box_iter::flat_map_then, box_iter::then, box_iter::next_if_one
